@@ -21,13 +21,6 @@ class RichSwnmEditor:
         allocable_ids = self._generate_allocable_ids(swnm)
         new_switches = [x for x in swnm.switches]
         for i, switch in enumerate(unique_switches_to_add):
-            if not allocable_ids:
-                msg = (
-                    f"No more allocable IDs left.  Have we run out of switches?  "
-                    f"{i + 1} remaining switches we cannot allocate."
-                )
-                self.log.error(msg)
-                raise ValueError(msg)
             if switch.index is not None:
                 if switch not in new_switches:
                     new_switches[switch.index] = switch
@@ -40,6 +33,14 @@ class RichSwnmEditor:
                         f"Not replacing.  "
                     )
             else:
+                # only a switch that needs a new ID can run out of IDs
+                if not allocable_ids:
+                    msg = (
+                        f"No more allocable IDs left.  Have we run out of switches?  "
+                        f"{i + 1} remaining switches we cannot allocate."
+                    )
+                    self.log.error(msg)
+                    raise ValueError(msg)
                 new_switches.append(
                     RichSwitch(
                         _custom_name=switch.custom_name, _index=allocable_ids.pop()
